@@ -438,11 +438,12 @@ class Parser(object):
     def pattern1(self):
         t = self.peek()
         ln = t.line
-        if t.text == "&" and t.kind == "op":
+        if t.text in ("&", "&&") and t.kind == "op":
             self.next()
             if self.at("mut"):
                 self.next()
-            return Tm("&", [self.pattern1()], ln)
+            inner = Tm("&", [self.pattern1()], ln)
+            return Tm("&", [inner], ln) if t.text == "&&" else inner
         if t.text in ("mut", "ref") and t.kind == "id":
             self.next()
             return Tm(t.text, [self.pattern1()], ln)
@@ -884,6 +885,29 @@ class Parser(object):
                 self.next()
             mut = pat.head == "mut"
             s = Tm("letmut" if mut else "let", [pat.args[0] if mut else pat, e], ln)
+            s.cfg = cfg
+            return s
+        if t.kind == "id" and (t.text == "fn" or (t.text == "pub" and self.peek(1).text == "fn")):
+            # a nested function item: ("fn", [name, body])
+            if t.text == "pub":
+                self.next()
+            self.next()
+            name = self.next()
+            if self.at("<"):
+                self.skip_generics()
+            if not self.at("("):
+                raise Unrecognised(name.line, "fn %s: parameter list expected" % name.text)
+            self.skip_balanced()
+            while not self.at("{"):          # return type, where clause
+                if self.peek().kind == "eof" or self.at(";"):
+                    raise Unrecognised(name.line, "fn %s: body expected" % name.text)
+                if self.at("<"):
+                    self.skip_generics()
+                elif self.peek().text in OPEN:
+                    self.skip_balanced()
+                else:
+                    self.next()
+            s = Tm("fn", [Tm(name.text, [], name.line), self.block()], ln)
             s.cfg = cfg
             return s
         # a block-like expression statement (`if`, `match`, `for`, `{..}`, ..) ends at its closing brace
